@@ -349,6 +349,33 @@ func (a *Analyzer) ParentPath() []RuleResult {
 			case *ssa.Parameter:
 				ok = strings.HasSuffix(a.P.FuncName(f), "Generator).DoFile")
 				how = "parameter " + x.Name() + " of " + a.P.FuncName(f)
+				if !ok {
+					// one level of wrapping: every call of this function in the module passes a qualified name (or DoFile's own parameter) there
+					idx, sites, good := paramIndex(f, x), 0, 0
+					for _, g := range a.P.Funcs {
+						for _, cc := range Calls(g) {
+							if cc.Common().StaticCallee() != f || idx < 0 || idx >= len(cc.Common().Args) {
+								continue
+							}
+							sites++
+							av := cc.Common().Args[idx]
+							if ex, isEx := av.(*ssa.Extract); isEx && ex.Index == 0 {
+								if call, isCall := ex.Tuple.(*ssa.Call); isCall {
+									if h := call.Call.StaticCallee(); h != nil && strings.HasSuffix(h.String(), "schemas.QualifiedFileName") {
+										good++
+									}
+								}
+							}
+							if pp, isP := av.(*ssa.Parameter); isP && strings.HasSuffix(a.P.FuncName(g), "Generator).DoFile") && pp != nil {
+								good++
+							}
+						}
+					}
+					if sites > 0 && good == sites {
+						ok = true
+						how = fmt.Sprintf("parameter %s of the wrapper %s, which all %d call sites give a qualified name", x.Name(), a.P.FuncName(f), sites)
+					}
+				}
 			case *ssa.Extract:
 				if call, isCall := x.Tuple.(*ssa.Call); isCall {
 					if g := call.Call.StaticCallee(); g != nil && strings.HasSuffix(g.String(), "schemas.QualifiedFileName") && x.Index == 0 {
@@ -400,13 +427,30 @@ func (a *Analyzer) ParentPath() []RuleResult {
 			ci := c.(ssa.Instruction)
 			covered := false
 			for _, d := range Calls(f) {
-				if !strings.HasSuffix(shortCallee(d), "Generator).addFile") {
-					continue
-				}
 				da := d.Common().Args
 				di := d.(ssa.Instruction)
-				if len(da) >= 3 && isQualified(da[1]) && sameValue(da[2], schema) && instrDominates(di, ci) {
-					covered = true
+				if strings.HasSuffix(shortCallee(d), "Generator).addFile") {
+					if len(da) >= 3 && isQualified(da[1]) && sameValue(da[2], schema) && instrDominates(di, ci) {
+						covered = true
+					}
+					continue
+				}
+				// one level of wrapping: a module helper that hands two of its parameters on to addFile(name, schema) unconditionally
+				if g := d.Common().StaticCallee(); g != nil && a.P.InModule(g) && g.Blocks != nil && instrDominates(di, ci) {
+					for _, e := range Calls(g) {
+						if !strings.HasSuffix(shortCallee(e), "Generator).addFile") || len(e.Common().Args) < 3 || !e.Block().Dominates(g.Blocks[len(g.Blocks)-1]) && e.Block() != g.Blocks[0] {
+							continue
+						}
+						pn, ok1 := e.Common().Args[1].(*ssa.Parameter)
+						ps, ok2 := e.Common().Args[2].(*ssa.Parameter)
+						if !ok1 || !ok2 {
+							continue
+						}
+						in, is := paramIndex(g, pn), paramIndex(g, ps)
+						if in >= 0 && is >= 0 && in < len(da) && is < len(da) && isQualified(da[in]) && sameValue(da[is], schema) && e.Block() == g.Blocks[0] {
+							covered = true
+						}
+					}
 				}
 			}
 			why := "the generator is built with " + exprKey(name) + " (not a qualified name); addFile(<qualified>, same schema) dominates it, so the schema's definitions are generated under the qualified name first"
@@ -734,4 +778,13 @@ func (a *Analyzer) RefCacheScope() []RuleResult {
 	}
 	out = append(out, RuleResult{"B-REFCACHE", "(module)", "caches keyed by raw $ref", "", n >= 1, fmt.Sprintf("%d write site(s)", n)})
 	return out
+}
+
+func paramIndex(f *ssa.Function, p *ssa.Parameter) int {
+	for i, q := range f.Params {
+		if q == p {
+			return i
+		}
+	}
+	return -1
 }
